@@ -552,7 +552,7 @@ class IntEval:
                 return base[lo:hi:sp_]
         if isinstance(e, ast.Subscript) and not isinstance(e.slice, ast.Slice):
             base, idx = self.ev(e.value, st), self.ev(e.slice, st)
-            if isinstance(base, (tuple, str, range)) and isinstance(idx, int) and not isinstance(idx, bool):
+            if isinstance(base, (tuple, list, str, range)) and isinstance(idx, int) and not isinstance(idx, bool):
                 return base[idx]      # IndexError propagates to the caller
             if isinstance(base, dict):
                 return base[idx]      # KeyError propagates
